@@ -24,8 +24,8 @@
 From BP Require Import Base.Prelude.
 Local Open Scope nat_scope.
 
-Definition name := list byte.
-Definition path := list name.
+Notation name := (list byte) (only parsing).
+Notation path := (list (list byte)) (only parsing).
 
 Inductive value :=
 | VMod (p : path)                 (* the module object of package p *)
